@@ -13,8 +13,20 @@ var floatPool = []float64{0.5, 1.5, 2.7, -2.7, 3, 1e6, 65.9}
 var strPool = []string{"", "a", "b", "x", "ab", "A", "héllo", "日本", "k"}
 var keyStrPool = []string{"a", "b", "k", "A", "zz"}
 
+// unbiased draws an index in [0,n): rapid's integer generators favour small and boundary
+// values, which would distort the weights below, so a full-width draw is mixed first
+// (0 stays 0, so shrinking still moves towards the first alternative).
+func unbiased(t *rapid.T, label string, n int) int {
+	x := rapid.Uint64().Draw(t, label)
+	x *= 0x9E3779B97F4A7C15
+	x ^= x >> 32
+	x *= 0xD6E8FEB86659FD93
+	x ^= x >> 32
+	return int(x % uint64(n))
+}
+
 func pick[T any](t *rapid.T, label string, xs ...T) T {
-	return xs[rapid.IntRange(0, len(xs)-1).Draw(t, label)]
+	return xs[unbiased(t, label, len(xs))]
 }
 
 // weighted choice: pairs of (weight, name)
@@ -23,7 +35,7 @@ func choose(t *rapid.T, label string, pairs ...interface{}) string {
 	for i := 0; i < len(pairs); i += 2 {
 		total += pairs[i].(int)
 	}
-	n := rapid.IntRange(0, total-1).Draw(t, label)
+	n := unbiased(t, label, total)
 	for i := 0; i < len(pairs); i += 2 {
 		n -= pairs[i].(int)
 		if n < 0 {
